@@ -154,7 +154,7 @@ func guard(f func()) (msg string, hung bool) {
 	select {
 	case m := <-done:
 		return m, false
-	case <-time.After(10 * time.Second):
+	case <-time.After(6 * time.Second):
 		return "", true
 	}
 }
@@ -204,7 +204,11 @@ func total(c *hc.Ctx, pool []*canvas.Path) {
 		budget = 6 * c.N
 	}
 	var derived []*canvas.Path
+	aborted := false
 	runOn := func(p *canvas.Path, origin string) {
+		if aborted {
+			return
+		}
 		q := in[c.Intn(len(in))]
 		if c.Chance(0.3) {
 			// open clipping operand whose last edge is collinear with the missing closing edge
@@ -259,8 +263,12 @@ func total(c *hc.Ctx, pool []*canvas.Path) {
 			}
 			msg, hung := guard(func() { cl.f(&y) })
 			if hung {
-				fail(c, "hang:"+cl.name, cl.name+" did not return within 10s", replay)
-				continue
+				fail(c, "hang:"+cl.name, cl.name+" did not return within 6s", replay)
+				// the abandoned goroutine cannot be stopped and the sweep allocates ~350 MB/s while it
+				// spins: end the totality oracle here, the process exit reclaims it
+				aborted = true
+				c.Count("total:aborted-after-hang")
+				return
 			}
 			if msg != "" {
 				cls := panicClass(msg)
